@@ -76,6 +76,30 @@ def check_pattern(E, split_posterior=False):
     return None
 
 
+def engine_error_log_case(col, minimize):
+    """a real engine run with scripted error codes and THINNED warmup / posterior epochs, with and without minimize_transition_infos: the error
+    log and the summary count every transition that returned a code - thinning of the stored samples never thins the error bookkeeping"""
+    sched = [(0, 1, 1), (3, 8, 4), (4, 12, 3)]
+    codes = [0, 1, 0, 2, 1]
+    eng = make_engine(sched, 4, chains=2, kernels=1, codes=[codes], minimize_transition_infos=minimize)
+    eng.sample_all_epochs()
+    res = eng.get_results()
+    T = 20
+    want = np.array([codes[t % 5] for t in range(1, T + 1)])
+    log = res.get_error_log().unwrap()["kernel_00"]
+    full = np.zeros((2, T), dtype=int)
+    idx = np.asarray(log.transition)
+    ok = idx.size == 0 or idx.max() < T
+    if ok:
+        full[:, idx] = np.asarray(log.error_codes)
+    ok = ok and np.array_equal(full, np.tile(want, (2, 1)))
+    es = _make_error_summary(res.get_error_log(False).unwrap(), res.get_error_log(True))["kernel_00"]
+    for c_ in (1, 2):
+        ok = ok and c_ in es and int(np.asarray(es[c_].count_per_chain)[0]) == int((want == c_).sum()) and int(np.asarray(es[c_].count_per_chain_posterior)[0]) == int((want[8:] == c_).sum())
+    col.add(None if ok else {"sig": "native::errors::engine_log_thinned_epochs", "what": f"minimize_transition_infos={minimize}: the error log holds codes at transitions {idx.tolist()} "
+                             f"but the kernel returned a code at {np.where(want != 0)[0].tolist()} (thinning 4 / 3)", "input": {"schedule": sched, "minimize_transition_infos": minimize}})
+
+
 def roundtrips(col, seed):
     from liesel.experimental.arviz import to_arviz_inference_data
 
@@ -130,11 +154,16 @@ def bounded(tier, seed):
         except Exception as e:
             col.add({"sig": f"native::errors::exception::{type(e).__name__}", "what": f"{type(e).__name__}: {str(e)[:200]}", "input": {"error_codes": E.tolist()}})
     roundtrips(col, seed)
+    for mini in (False, True):
+        try:
+            engine_error_log_case(col, mini)
+        except Exception as e:
+            col.add({"sig": f"native::errors::exception::{type(e).__name__}", "what": f"{type(e).__name__}: {str(e)[:200]}", "input": {"scenario": "engine error log", "minimize_transition_infos": mini}})
     return {
         "evaluations": col.evals, "distinct_nontrivial": len(pats) + 4,
         "rule": ("BOUNDED: all 81 single-chain and " + ("500 seeded + 4 fixed" if tier == "quick" else "all 6561") + " two-chain error-code patterns over codes {0,1,2} for 2 burn-in + 2 posterior "
                  "transitions, pushed through the real EpochChainManager / SamplingResults.get_error_log / _make_error_summary / Summary._error_df(per_chain=True) and compared with direct "
-                 "counting; one real engine run (scripted error codes, random-walk kernels, thinning) for the ArviZ (incl. warmup) and pickle round trips, the engine error log and the "
+                 "counting; engine runs with thinned epochs with and without minimize_transition_infos (error log / summary counts per phase); one real engine run (scripted error codes, random-walk kernels, thinning) for the ArviZ (incl. warmup) and pickle round trips, the engine error log and the "
                  f"reported sample counts. seed={seed}"),
         "samples": [{"error_codes": [[1, 0, 2, 0]]}, {"error_codes": [[0, 0, 1, 1], [0, 0, 0, 2]]}],
         "exhaustive": tier != "quick", "violations": col.violations,
